@@ -28,8 +28,11 @@ func TestMain(m *testing.M) { fix.Main(m) }
 
 // Req is one hostile request in wire format plus how it was made.
 type Req struct {
-	Wire []byte
-	Kind string
+	// GiveUpMS > 0: the client's deadline for this request in milliseconds
+	// (it gives up while the server is still executing)
+	GiveUpMS int
+	Wire     []byte
+	Kind     string
 }
 
 type Case struct {
@@ -114,16 +117,25 @@ func oracle(c *Case) (int, error) {
 			continue // not decodable from the wire: outside the property
 		}
 		label := fmt.Sprintf("hostile request %d (%s: %s)", i, r.Kind, describe(r.Wire))
-		resp, rerr := srv.Query(&req, 60*time.Second)
+		limit := 60 * time.Second
+		if r.GiveUpMS > 0 {
+			limit = time.Duration(r.GiveUpMS) * time.Millisecond
+		}
+		resp, rerr := srv.Query(&req, limit)
 		if rerr != nil {
 			st, _ := status.FromError(rerr)
-			if st.Code() == codes.DeadlineExceeded {
+			if st.Code() == codes.DeadlineExceeded && r.GiveUpMS == 0 {
 				if srv.Alive() {
 					panic("INFRA: request slow (>60s), server alive")
 				}
 			}
 		} else if resp != nil {
 			answered++
+		}
+		if r.GiveUpMS > 0 {
+			// the caller has given up; the server may still be at work on the
+			// request - it has to survive finishing (or dropping) it
+			srv.WaitExit(1500 * time.Millisecond)
 		}
 		srv.WaitExit(20 * time.Millisecond)
 		if !srv.Alive() {
@@ -399,6 +411,10 @@ func drawCase(t *rapid.T, nreq int) *Case {
 		}
 		if w := marshal(&pb.QueryRequest{Queries: []*pb.Query{heavy, heavy2, broken}}); w != nil {
 			c.Reqs = append(c.Reqs, Req{Wire: w, Kind: "slow-request-with-incomplete-query"})
+		}
+		if w := marshal(&pb.QueryRequest{Queries: []*pb.Query{heavy, heavy2}}); w != nil {
+			// the same slow work, valid this time, with a caller that gives up early
+			c.Reqs = append(c.Reqs, Req{Wire: w, Kind: "slow-valid-request-given-up-by-the-client", GiveUpMS: rapid.SampledFrom([]int{1, 20, 60, 150}).Draw(t, "giveup")})
 		}
 	}
 	if rapid.IntRange(0, 7).Draw(t, "flood") == 0 {
